@@ -7,41 +7,6 @@ open Chan Quote EnvChan
 
 /-! ### the domain of the theorems -/
 
-/-- the prompt does not end a proper prefix of the cooked output followed by the prompt -/
-def okOut (ash : Bool) (out : Bytes) : Bool := noEarly (prompt ash) (Tty.cook out)
-
-/-- the words that start an external command: an absolute path first, all of them sendable -/
-def extPre (bl : Bytes) (pre : List Bytes) : Bool :=
-  match pre with
-  | (47 :: _) :: _ => pre.all (clean bl)
-  | _ => false
-
-/-- one operation is in the domain: names are shell identifiers; strings have no CR (the tty would
-    turn it into LF) and — except for the value of `env(name, value)`, where the rejection is part
-    of the specification — no black-listed byte; what the command prints does not contain the prompt
-    at a piece end -/
-def Op.wf (ash : Bool) : Op → Bool
-  | .set n v =>
-    isName n && (Chan.forbidden (blacklist ash) (enc v)
-      || (clean (blacklist ash) (enc v) && okOut ash (SP :: enc v ++ [LF])))
-  | .get n => isName n
-  | .probe pre _ => extPre (blacklist ash) pre
-  | .cd d => clean (blacklist ash) d && okOut ash (d ++ [LF])
-  | .pwd => true
-  | .setopt c _ => tracked.contains c
-  | .getopt => true
-  | .echo a => clean (blacklist ash) (enc a) && okOut ash (echoOut ash [SP :: enc a])
-  | .run pre args out _ => extPre (blacklist ash) pre && args.all (clean (blacklist ash)) && okOut ash out
-
-def Prog.wf (ash : Bool) : Prog → Bool
-  | .done => true
-  | .op o k => o.wf ash && k.wf ash
-  | .raise => true
-  | .sub _ body k => body.wf ash && k.wf ash
-
-def Case.wf (c : Case) : Bool :=
-  decide (0 < c.chunk) && clean (blacklist c.ash) c.cwd && okOut c.ash (c.cwd ++ [LF]) && c.prog.wf c.ash
-
 /-- what holds of every reachable reference frame -/
 structure ROk (ash : Bool) (rf : RFrame) : Prop where
   vals : ∀ p ∈ rf.env, clean (blacklist ash) (enc p.2) = true ∧ okOut ash (SP :: enc p.2 ++ [LF]) = true
